@@ -182,8 +182,8 @@ def gen_cases(rng: Rng, tier):
         n, m = 9, rng.randint(7, 9)
         t = rng.grid(m, lo=rng.choice([0, -1]), scale=1, uniform=bool(rep % 2))
         shapes, _ = curves(rng, 6, t, "rough")
-        X = [[10 + sum(Fraction(1, 8 ** k) * shapes[k][j] * ((-1) ** (i * (k + 1))) * (i + 1 + k) for k in range(6))
-              for j in range(m)] for i in range(n)]
+        coef = [[rng.dyadic(-4, 4, 2) for _ in range(6)] for _ in range(n)]          # independent directions
+        X = [[10 + sum(Fraction(1, 8 ** k) * shapes[k][j] * coef[i][k] for k in range(6)) for j in range(m)] for i in range(n)]
         yield dict(kind="cov", t=Svec(t), X=Smat(X), sel=["all"], ck="weak-tail", scale="1")
     # data objects WITH A HISTORY (every run, both routes): the object handed to fit has been used before — a smoothed mean,
     # a covariance, a Gram matrix, center(), smooth(), an earlier fit with method_smoothing, new values assigned after a
